@@ -475,6 +475,10 @@ pub fn run_c19(cfg: &Cfg) {
                 pairs.push(("flag-scope", a, b));
             }
         }
+        if i == 0 {
+            // witness of known finding F19 (inline flags leak out of capturing groups), replayed as itself
+            pairs.push(("flag-scope-in-group", "((?i)a)b".to_string(), "((?i:a))b".to_string()));
+        }
         for (name, a, b) in pairs {
             s.count("respellings");
             let ta = if a == base { base_tree.clone() } else { tree_of(&a) };
